@@ -101,6 +101,8 @@ def opCardDec (args : List SExp) : Option OpResult := do
       | .ok none => "nobackend"
       | .error _ => "400"
     pure ⟨impl, fun got => (if got.startsWith "5" || got = "panic" then [("C13", "report-answered-5xx")] else []) ++
+      -- a document the RFC 6352 reading refuses (exclusive elements, invalid enumerations / limits, wrong roots) is malformed
+      (if impl = "400" && !(got.startsWith "4") then [("C13", s!"malformed-report-answered-{(got.splitOn " ").headD got}")] else []) ++
       (if got = impl then [] else [("C09", "server-reads-query-differently")])⟩
   | _ => none
 
